@@ -215,7 +215,9 @@ func (s *snapshotSink) done(err error) (snapshotMeta, error) {
 	verifPoint("snapshot.published")
 	temp = nil
 	s.snaps.mu.Lock()
-	s.snaps.index, s.snaps.term = s.meta.index, s.meta.term
+	if s.meta.index > s.snaps.index { // a newer snapshot may have been installed meanwhile
+		s.snaps.index, s.snaps.term = s.meta.index, s.meta.term
+	}
 	s.snaps.mu.Unlock()
 	_ = s.snaps.applyRetain() // todo: trace error
 	return s.meta, nil
